@@ -12,7 +12,7 @@ from __future__ import annotations
 
 import time
 
-from .. import core, timeref, vt
+from .. import core, timed_ilv, timeref, vt
 from ..timeref import src_err
 
 PROPERTY = "C15"
@@ -20,7 +20,7 @@ LEVEL = "exploration"
 META = {
     "engine": "vtx",
     "technique": "bounded-exhaustive enumeration of (time-shifting operator instance, gap-re-timed timeline, clock kind) on virtual time "
-    "against nondeterministic reference simulators (closure over same-instant orders)",
+    "against nondeterministic reference simulators (closure over same-instant orders); plus stateless exhaustive exploration of thread interleavings (bounded preemptions) of the operator on a real-time scheduler with the source on its own thread, timer and source notification due in the same instant",
     "text": "delay (0/relative number/timedelta/absolute datetime), delay_subscription, delay_with_mapper (per-element delay observables incl. "
     "synchronously empty, emitting twice, completing, never; with and without subscription delay), timestamp and time_interval are executed "
     "on the real code for every timeline of <=N elements with gaps <,=,> the delay, bursts and completion/error while elements are pending, "
@@ -423,12 +423,15 @@ def run(ctx: core.Ctx):
         "harness LoggedCold source is conforming",
         "same-instant events of different origin may be observed in any order (R3); an error may overtake elements that are still pending in its own instant",
     ]
+    timed_ilv.run_part(ctx, "C15")  # E3: real-time scheduler, source on its own thread
     part = ctx.sharded(shard)
     ctx.cov["operators_covered"] = sorted(k[3:] for k in part.counters if k.startswith("op:"))
     ctx.cov["instances"] = sum(1 for _ in instances(ctx.tier, ctx.seed))
 
 
 def replay(case):
+    if isinstance(case, dict) and str(case.get("harness", "")).startswith("timed-threads|"):
+        return timed_ilv.replay("C15", case)
     if case.get("mode") == "resub":
         c = dict(case)
         c["tl"] = [tuple(x) for x in c["tl"]]
